@@ -61,10 +61,17 @@ let step_of = function
   | Ls [At "ar"; r; v] -> TAssertRes (n_of r, n_of v)
   | x -> failwith ("bad step " ^ sexp_to_string x)
 
+let cli_tags : n list ref = ref []
 let test_of = function
   | Ls [At "test"; name; Ls scopes; skip; Ls steps] ->
       { t_name = n_of name; t_scopes = List.map n_of scopes; t_skip = bool_of skip;
         t_body = List.map step_of steps }
+  | Ls [At "test"; name; Ls scopes; skip; Ls steps; Ls (At "tags" :: tags)] ->
+      (* what the runner makes of a tagged test under the -t option *)
+      untag !cli_tags
+        (List.map (function Ls [k; inv] -> (n_of k, bool_of inv) | _ -> failwith "bad tag") tags,
+         { t_name = n_of name; t_scopes = List.map n_of scopes; t_skip = bool_of skip;
+           t_body = List.map step_of steps })
   | x -> failwith ("bad test " ^ sexp_to_string x)
 
 let hooks_of (l : sexp list) : n -> tstep list option =
@@ -81,9 +88,16 @@ let sub_of = function
   | Ls [At "sub"; k; b] -> (n_of k, block_of b)
   | x -> failwith ("bad sub " ^ sexp_to_string x)
 
-let handle (req : string) : string =
+let rec handle (req : string) : string =
   match parse_sexps req with
-  | [At "run"; cov; Ls (At "subs" :: subs); Ls (At "items" :: items)] ->
+  | At "run" :: cov :: Ls (At "cli" :: cli) :: rest ->
+      cli_tags := List.map n_of cli;
+      handle_run cov rest
+  | At "run" :: cov :: rest -> cli_tags := []; handle_run cov rest
+  | _ -> "badreq"
+and handle_run cov rest =
+  match rest with
+  | [Ls (At "subs" :: subs); Ls (At "items" :: items)] ->
     (match irun_items (bool_of cov) (List.map sub_of subs) (List.map item_of items) with
      | None -> "abort"
      | Some (cases, c) ->
